@@ -90,6 +90,20 @@ Proof.
   - unfold D. rewrite of_to_Z. symmetry. exact Hk5.
 Qed.
 
+Lemma idpre_facts id : -840 <= id <= -1 ->
+  let s := month_start_of_id (of_Z id) in
+  let e := month_end_of_id (of_Z id) in
+  py_month_to_id s = of_Z id /\ py_month_to_id e = of_Z id
+  /\ py_is_month_start s = true /\ py_is_month_end e = true
+  /\ valid_ymd s = true /\ valid_ymd e = true
+  /\ date_add_days e 1 = month_start_of_id (iadd (of_Z id) 1).
+Proof.
+  intros H s e. pose proof (idpre_all id H) as Hk. unfold idpre_kernel in Hk.
+  fold s in Hk. fold e in Hk. split_andb Hk.
+  apply ieq_eq in Hk, Hk7. apply date_eqb_eq in Hk2.
+  repeat split; assumption.
+Qed.
+
 Lemma month_brackets o : LO <= o <= HI ->
   let d := D o in let id := py_month_to_id d in
   date_leb (month_start_of_id id) d = true /\ date_leb d (month_end_of_id id) = true
